@@ -769,7 +769,7 @@ def boundary_specs(tier, cat, rng):
             if tier == "quick" and not any(e["leaves"] == L and e["leaves"] - e["at"] in (0, 1) for e in els):
                 continue                      # quick: first-time indexing only at c and c + 1 (the growth above visits every size)
             fe = "lib" if (L + csum) % 2 else "dbg"
-            sc, prep = fresh_script(fe, L * per, ln, bs != 1024)
+            sc, prep = fresh_script(fe, L * per, ln, L * per > 600)      # large directories: objects of their own only among the first 64 names
             specs.append(dict(prof=prof, bs=bs, front=fe, seed=1, nsteps=len(sc), raw=0, big=1, script=sc, prep=prep,
                               cat=dict(kind="fresh", bs=bs, csum=csum, len=ln, leaves=[L])))
     return specs, skipped
